@@ -448,6 +448,23 @@ def suite_jit(ctx, core):
             err = max(np.abs(a - b).max() for a, b in zip(e1, e2))
             if not err <= 1e-10*scale:
                 bad.append((KN[k], shp, nu, err, scale))
+            # the relaxation is invariant under a common scaling of the
+            # system (coefficients and source) by a power of two
+            for p2 in (-90, 70):
+                e3 = [a.copy() for a in e]
+                f_ = 2.0**p2
+                getattr(core, KN[k])(*e3, *[a*f_ for a in s_],
+                                     *[a*f_ for a in eta], zeta*f_, *h, nu)
+                if not all(np.array_equal(a, b) for a, b in zip(e3, e1)):
+                    bad.append((KN[k], shp, nu, 'scaling', p2))
+                    ctx.violation(
+                        'smoother-not-scale-invariant',
+                        f'{KN[k]} (compiled) on shape {shp}, nu={nu}: scaling '
+                        f'source, eta and zeta by 2^{p2} changes the relaxed '
+                        f'field (max |diff| '
+                        f'{max(float(np.abs(a-b).max()) for a, b in zip(e3, e1)):.3g})',
+                        {'kernel': KN[k], 'shape': list(shp), 'power': p2})
+                    break
             ctx.count(key=('jit', k, shp, nu))
     # the compiled banded solver is invariant under scaling by powers of two
     # (exact in binary floating point): tiny and huge systems
